@@ -716,4 +716,111 @@ theorem unambig_of_noClash (names : List Str) (hne : ∀ nm ∈ names, nm ≠ []
             ⟨s ++ writeGlycan g [], by simp⟩
           exact List.prefix_of_prefix_length_le h2 hp (by simp; omega)
 
+/-! ## the separated form (`sep` = one character) -/
+
+theorem splitOnAux_sep (c : Nat) (b : Str) : ∀ (a acc : Str), c ∉ a →
+    splitOnAux [c] 0 acc (a ++ c :: b) = (acc.reverse ++ a) :: splitOnAux [c] 0 [] b := by
+  intro a
+  induction a with
+  | nil => intro acc _; simp [splitOnAux, List.isPrefixOf]
+  | cons x t ih =>
+    intro acc h
+    simp only [List.mem_cons, not_or] at h
+    have hx : (c == x) = false := by simpa using h.1
+    have := ih (x :: acc) h.2
+    simp only [List.cons_append, splitOnAux, List.isPrefixOf, hx, Bool.false_and, Bool.false_eq_true, if_false]
+    rw [this]
+    simp
+
+theorem splitOnAux_last (c : Nat) : ∀ (a acc : Str), c ∉ a → splitOnAux [c] 0 acc a = [acc.reverse ++ a] := by
+  intro a
+  induction a with
+  | nil => intro acc _; simp [splitOnAux]
+  | cons x t ih =>
+    intro acc h
+    simp only [List.mem_cons, not_or] at h
+    have hx : (c == x) = false := by simpa using h.1
+    have := ih (x :: acc) h.2
+    simp only [splitOnAux, List.isPrefixOf, hx, Bool.false_and, Bool.false_eq_true, if_false]
+    rw [this]
+    simp
+
+/-- the tokens of the separated form: name, count, name, count, … -/
+def tokens (g : Comp) : List Str := g.flatMap (fun kv => [kv.1, kv.2.show])
+
+theorem writeGlycan_sep_cons2 (sep : Str) (kv kv' : Str × Num) (g : Comp) :
+    writeGlycan (kv :: kv' :: g) sep = kv.1 ++ sep ++ kv.2.show ++ sep ++ writeGlycan (kv' :: g) sep := by
+  simp [writeGlycan, intercalate]
+
+theorem splitOn_write (c : Nat) : ∀ g : Comp, g ≠ [] → (∀ kv ∈ g, c ∉ kv.1 ∧ c ∉ kv.2.show) →
+    splitOn [c] (writeGlycan g [c]) = tokens g := by
+  intro g
+  induction g with
+  | nil => intro h; exact absurd rfl h
+  | cons kv r ih =>
+    intro _ h
+    obtain ⟨h1, h2⟩ := h kv (by simp)
+    cases r with
+    | nil =>
+      simp only [writeGlycan, List.map_cons, List.map_nil, intercalate, splitOn, tokens, List.flatMap_cons,
+        List.flatMap_nil, List.append_nil]
+      rw [List.append_assoc, List.singleton_append, splitOnAux_sep c _ _ _ h1, splitOnAux_last c _ _ h2]
+      simp
+    | cons kv' r' =>
+      have ih' := ih (by simp) (fun kv hkv => h kv (List.mem_cons_of_mem _ hkv))
+      rw [writeGlycan_sep_cons2]
+      simp only [splitOn, tokens, List.flatMap_cons] at ih' ⊢
+      simp only [List.append_assoc, List.cons_append, List.nil_append]
+      rw [splitOnAux_sep c _ _ _ h1, splitOnAux_sep c _ _ _ h2, ih']
+      simp
+
+/-- the dict `_parse_split_chem_formula` builds: a repeated key is *accumulated* (unlike the unseparated path) -/
+def foldSep (d g : Comp) : Comp :=
+  g.foldl (fun d kv => match d.get? kv.1 with
+    | some _ => addTo d kv.1 kv.2
+    | none => setTo d kv.1 kv.2) d
+
+theorem splitFold_tokens : ∀ (g d : Comp), (∀ kv ∈ g, NumOK kv.2) → splitFold (tokens g) d = .ok (foldSep d g) := by
+  intro g
+  induction g with
+  | nil => intro d _; rfl
+  | cons kv r ih =>
+    intro d h
+    have hv := h kv (by simp)
+    have ih' := fun d' => ih d' (fun kv hkv => h kv (List.mem_cons_of_mem _ hkv))
+    simp only [tokens, List.flatMap_cons, List.cons_append, List.nil_append]
+    rw [splitFold]
+    simp only [hv.isNum, if_true, hv.conv, foldSep, List.foldl_cons]
+    cases d.get? kv.1 with
+    | none => exact ih' _
+    | some x => exact ih' _
+
+theorem get?_none_of_not_mem (k : Str) : ∀ d : Comp, k ∉ gkeys d → d.get? k = none := by
+  intro d h
+  simp only [Comp.get?, Option.map_eq_none_iff, List.find?_eq_none]
+  intro kv hkv hk
+  apply h
+  simp only [gkeys, List.mem_map]
+  exact ⟨kv, hkv, by simpa using hk⟩
+
+theorem foldSep_distinct : ∀ (g d : Comp), (gkeys (d ++ g)).Nodup → foldSep d g = d ++ g := by
+  intro g
+  induction g with
+  | nil => intro d _; simp [foldSep]
+  | cons kv g ih =>
+    intro d h
+    obtain ⟨k, v⟩ := kv
+    have hk : k ∉ gkeys d := by
+      simp only [gkeys, List.map_append, List.map_cons] at h ⊢
+      rw [List.nodup_append] at h
+      intro hkd
+      exact h.2.2 k hkd k (by simp) rfl
+    have h' : (gkeys ((d ++ [(k, v)]) ++ g)).Nodup := by simpa using h
+    have := ih (d ++ [(k, v)]) h'
+    simp only [foldSep, List.foldl_cons] at this ⊢
+    rw [get?_none_of_not_mem k d hk]
+    simp only
+    rw [setTo_new k v d hk, this]
+    simp
+
 end Formula
